@@ -37,6 +37,12 @@ def kits():
     out['repeated-enum'] = dict(fields=[field('tones', 10, 'enum:' + Q('Tone'), repeated=True, required=True)])
     out['nested-repeated-enum'] = dict(fields=[field('mix', 10, Q('Mix'), required=True)])
     out['required-message-plain'] = dict(fields=[field('item', 10, Q('Item'), required=True)])
+    out['two-required-same-type'] = dict(fields=[field('source', 10, Q('Lvl3'), required=True), field('destination', 11, Q('Lvl3'), required=True)])
+    out['nested-two-same-type'] = dict(fields=[field('options', 10, Q('Pair'), required=True), field('again', 11, Q('Lvl3'), required=True)])
+    # flattened signatures: the metadata's parameter list names the client method's parameters
+    out['sig-plain'] = dict(fields=[field('note', 10, 'string'), field('count', 11, 'int32')], sigs=['note,count'])
+    out['sig-dotted'] = dict(fields=[field('widget', 10, Q('Item')), field('etag', 11, 'string'), field('l1', 12, Q('Lvl1'))],
+                             sigs=['widget.name,etag', 'l1.l2.skip'])
     out['resource-ref'] = dict(fields=[field('thing', 10, 'string', required=True, ref=f'{DOM}/Thing')])
     out['oneof-scalar-first'] = dict(fields=[field('by_name', 10, 'string', oneof=0), field('by_leaf', 11, Q('Lvl3'), oneof=0),
                                              field('by_tone', 12, 'enum:' + Q('Tone'), oneof=0)], oneofs=['selector'])
@@ -62,6 +68,7 @@ def build(transport):
             message('Thing', [field('name', 1, 'string')], resource=(f'{DOM}/Thing', 'things/{thing}')),
             message('Mix', [field('tones', 1, 'enum:' + Q('Tone'), repeated=True, required=True), field('tone', 2, 'enum:' + Q('Tone'), required=True),
                             field('nums', 3, 'int32', repeated=True, required=True)]),
+            message('Pair', [field('target', 1, Q('Lvl3'), required=True), field('fallback', 2, Q('Lvl3'), required=True)]),
             message('Resp', [field('ok', 1, 'bool'), field('text', 2, 'string')]),
             message('Item', [field('name', 1, 'string')]),
             message('PagedResp', [field('items', 1, Q('Item'), repeated=True), field('next_page_token', 2, 'string')]),
@@ -97,6 +104,8 @@ def build(transport):
             kw['ss'] = form in ('server-stream', 'bidi')
             if not kw['cs']:
                 kw['http'] = ('post', f'/v1/do/{i}/{form}', '*')
+            if k is not None and k.get('sigs') and form in ('unary', 'server-stream', 'lro', 'void'):
+                kw['sigs'] = k['sigs']
             meths.append(method(rpc, rq_type, out_t, **kw))
             cells.append(dict(id=f'{form}/{kname}', rpc=rpc, form=form, kit=kname, req=rq_type, resp=out_t))
     # a second service on another host: its region tags carry *its* host short name
